@@ -3,6 +3,7 @@ import LhasaV.Lemmas.ExtractTree14
 import LhasaV.Lemmas.ExtractTreeOpt
 import LhasaV.Lemmas.ExtractTreeOw
 import LhasaV.Lemmas.ExtractTreeImp
+import LhasaV.Lemmas.ExtractTreeAll
 /-!
 op `xtree <opts> <root 0|1> <abs prefix hex> <entries> <archive hex>`: evaluates the HYPOTHESES of
 `Props.C06.run_tree_partial` on a generated archive and prints the tree its CONCLUSION promises.
@@ -52,7 +53,7 @@ def opTree : List String → Option String
 /-!
 op `xtree2 <opts> <root 0|1> <abs prefix hex> <filters> <entries> <archive hex>`: the OPTION theorems of C06
 (`extract_selected`, `extract_relocated`, `extract_flattened`): decidable hypotheses evaluated, promised tree printed.
-  kind=sel   (wildcards, paths used, no w=): hyp = WellFormed ∧ ParentClosed (selected filters); tree = treeOf (selected entries)
+  kind=sel   (wildcards, paths used, no w=): hyp = WellFormed; tree = impTreeOf (selected entries) at every path and proper prefix
   kind=reloc (w=DIR, no wildcards, paths used): hyp = WellFormed ∧ DIR's components are names ∧ depth; tree below cwd/DIR, and the
              components of DIR as `mkBase` makes them (the last one stamped `now`)
   kind=flat  (option i, no w=): hyp = every entry EntryOk ∧ selected non-directory names pairwise distinct; tree = flatTreeOf
@@ -73,8 +74,10 @@ def opTree2 : List String → Option String
         ";".intercalate (arr.toList.map (fun x => pathStr x.1 ++ "=" ++ (match x.2 with | some e => entStr fs0.now e | none => "none")))
       match o.extractPath, o.usePath with
       | none, true =>
-          let hyp := decide (WellFormed es) && decide (ParentClosed (selected fl) es)
-          let items := sel.map (fun e => (fs0.cwd ++ e.path, treeOf fs0.now fs0.umask sel e.path))
+          -- `extract_selected_any`: any pattern list on a directory-first archive; parents whose own entry is not selected are implicit
+          let hyp := decide (WellFormed es)
+          let prefixes := ((sel.map Entry.path).flatMap (fun p => (List.range p.length).map (fun i => p.take (i + 1)))).eraseDups
+          let items := prefixes.map (fun p => (fs0.cwd ++ p, impTreeOf fs0.now fs0.umask sel p))
           some s!"kind=sel hyp={b hyp} tree={listing items}"
       | some d, true =>
           let ds := (Fs.splitPath d).filter (· ≠ [])
